@@ -210,6 +210,16 @@ func init() {
 			items = append(items, item{p + "$domain=example.org", "mask"})
 			items = append(items, item{p + "$domain=example.org,match-case", "mask"})
 		})
+		// alternations with more branches than a machine word has bits: only the first
+		// branches share a literal, the last one does not
+		for _, n := range []int{64, 65, 66, 130} {
+			var bs []string
+			for k := 0; k < n; k++ {
+				bs = append(bs, fmt.Sprintf("%c%c.banner", 'a'+k%26, 'a'+(k/26)%26))
+			}
+			bs = append(bs, "%.zzz")
+			items = append(items, item{"/" + strings.Join(bs, "|") + "/", "regex-wide-alternation"})
+		}
 		// patterns of many pieces (7..12 special characters between literals of growing length)
 		for _, seps := range []string{"*", "^", "*^", "|*"} {
 			for _, n := range []int{7, 8, 9, 12} {
@@ -279,6 +289,23 @@ func init() {
 		}
 		for _, h := range []string{"example.org", "sub.example.org", "a.sub.example.org", "example.org."} {
 			idxReqs = append(idxReqs, rules.NewRequestForHostname(h))
+		}
+		// a bucket of eighteen rules that share a leading literal and differ later
+		{
+			var lines []string
+			for k := 1; k <= 18; k++ {
+				lines = append(lines, fmt.Sprintf("adserv*q%dq", k))
+			}
+			ne := urlfilter.NewNetworkEngine(stringStorage(joinLines(lines) + "\n"))
+			for k := 1; k <= 18; k++ {
+				q := rules.NewRequest(fmt.Sprintf("http://host.test/adserv/x/q%dq.gif", k), "", rules.TypeImage)
+				want := []string{fmt.Sprintf("adserv*q%dq", k)}
+				if got := sortedSet(netTexts(ne.MatchAll(q))); !eqStrings(got, want) {
+					c.Run.Violate(ev.Violation{Pred: "shortcut-index-finds-what-matches", Sig: map[string]any{"bucket": 18, "rule": want[0]},
+						What: fmt.Sprintf("engine over 18 rules adserv*q1q..adserv*q18q, request %s: MatchAll returns %v, the rule that matches is %v", q.URL, got, want), Replay: map[string]any{"rule": want[0], "class": "index"}})
+					break
+				}
+			}
 		}
 		var idxLists [][]int
 		for size := 1; size <= 3; size++ {
